@@ -25,4 +25,10 @@ Definition c08_model_ok (c : c08case) : bool :=
       | Ok _ => monotonic_sm l
       | Raise e => negb (monotonic_sm l) && exn_isa e ValueError
       end
+  | IrregularBad out =>
+      (* timing_init: the element-type check comes before the monotonicity check *)
+      match out, timing_init 2 ANone ANone ANone (TSeq [AWrong]) with
+      | Raise e, Raise e' => exn_isa e e'
+      | _, _ => false
+      end
   end.
